@@ -177,6 +177,16 @@ def harness_build(cmd):
         return r.returncode == 0, r.stdout
 
 
+def _big_stack():
+    import resource
+    try:
+        soft, hard = resource.getrlimit(resource.RLIMIT_STACK)
+        want = hard if hard != resource.RLIM_INFINITY else resource.RLIM_INFINITY
+        resource.setrlimit(resource.RLIMIT_STACK, (want, hard))
+    except (ValueError, OSError):
+        pass
+
+
 def coqc_run(name, text, timeout=1200):
     """compile a generated file against the development; returns (rc, output)"""
     d = os.path.join(BUILD, "tmp")
@@ -185,8 +195,10 @@ def coqc_run(name, text, timeout=1200):
     path = os.path.join(d, name + ".v")
     with open(path, "w") as f:
         f.write(text)
+    # (vm_compute on a few thousand flows / histories recurses deeply: the evaluation gets the largest stack the system allows
+    #  instead of the default 8 MB)
     r = sh(["timeout", str(timeout), "coqc", "-Q", os.path.join(COQ, "theories"), "Galaxy",
-            "-w", "-notation-overridden,-deprecated-hint-without-locality,-ambiguous-paths", path], cwd=d)
+            "-w", "-notation-overridden,-deprecated-hint-without-locality,-ambiguous-paths", path], cwd=d, preexec_fn=_big_stack)
     for ext in (".vo", ".vok", ".vos", ".glob"):
         try:
             os.remove(os.path.join(d, name + ext))
